@@ -79,6 +79,8 @@ pub trait Shapes2 {
     #[int_result]
     fn io_marked(&self, v: u32) -> Result<u32, std::io::Error>;
     fn io_plain_after(&self, v: u32) -> Result<u32, std::io::Error>;
+    /// an optional OWNED box in and out: crosses as the C option {tag, {instance, drop function}}
+    fn opt_box(&self, b: Option<cglue::boxed::CBox<'static, u64>>) -> Option<cglue::boxed::CBox<'static, u64>>;
     /// calls the callback three times WHATEVER it answers (a `false` is only a request)
     fn cb_all(&self, cb: OpaqueCallback<u32>);
 }
@@ -114,6 +116,7 @@ impl Shapes2 for Imp {
     fn npo_fn(&self, f: Option<extern "C" fn(u32) -> u32>, x: u32) -> u32 { let r = self.r(25); r.variant = f.is_some() as u8; r.ptr = f.map(|p| p as usize).unwrap_or(0); match f { Some(g) => g(x), None => x } }
     fn io_marked(&self, v: u32) -> Result<u32, std::io::Error> { let r = self.r(28); r.payload = v as u64; if r.out_variant == 0 { Ok(r.out_payload as u32) } else { Err(std::io::Error::from_raw_os_error(r.wval as i32 | 1)) } }
     fn io_plain_after(&self, v: u32) -> Result<u32, std::io::Error> { let r = self.r(29); r.payload = v as u64; if r.out_variant == 0 { Ok(r.out_payload as u32) } else { Err(std::io::ErrorKind::NotFound.into()) } }
+    fn opt_box(&self, b: Option<cglue::boxed::CBox<'static, u64>>) -> Option<cglue::boxed::CBox<'static, u64>> { let r = self.r(33); r.variant = b.is_some() as u8; if let Some(x) = &b { r.ptr = &**x as *const u64 as usize; r.payload = **x; } if r.out_variant == 1 { b } else { None } }
     fn cb_all(&self, mut cb: OpaqueCallback<u32>) { let r = self.r(27); let (w, o) = (r.wval as u32, r.out_payload as u32); let a = cb.call(w); let b = cb.call(o); let c = cb.call(w ^ o); r.variant = a as u8 | (b as u8) << 1 | (c as u8) << 2; }
     fn res_unit(&self, x: Result<(), u8>) -> Result<(), u8> { let r = self.r(26); match x { Ok(()) => { r.variant = 0 } Err(e) => { r.variant = 1; r.payload = e as u64 } } if r.out_variant == 0 { Ok(()) } else { Err(r.out_payload as u8) } }
 }
